@@ -633,6 +633,8 @@ impl StateStore {
                     #[cfg(rre_verif)]
                     crate::verif_hooks::crash_point("checkpoint:before_retention_remove");
                     let _ = fs::remove_dir_all(old_path);
+                    #[cfg(rre_verif)]
+                    crate::verif_hooks::crash_point("checkpoint:after_retention_remove");
                 }
             }
             #[cfg(feature = "streaming-redis")]
